@@ -462,8 +462,8 @@ func c07Upgrade(x *X) {
 }
 
 func init() {
-	register(&Scenario{Prop: "C07", Name: "c07/headers", Quick: []Bound{{0, 0}}, Thorough: []Bound{{0, 0}}, Body: c07Body_(false), MinHB: 1})
-	register(&Scenario{Prop: "C07", Name: "c07/headers-all-upgrades", Quick: []Bound{}, Thorough: []Bound{{0, 0}}, Body: c07Body_(true), MinHB: 1, BudgetT: 500})
+	register(&Scenario{Prop: "C07", Name: "c07/headers", Quick: []Bound{{0, 0}}, Thorough: []Bound{{0, 0}}, Body: c07Body_(false), MinHB: 1, MaxSteps: 5000000})
+	register(&Scenario{Prop: "C07", Name: "c07/headers-all-upgrades", Quick: []Bound{}, Thorough: []Bound{{0, 0}}, Body: c07Body_(true), MinHB: 1, BudgetT: 500, MaxSteps: 5000000})
 	register(&Scenario{Prop: "C07", Name: "c07/upgrade-flags", Quick: []Bound{{0, 0}}, Thorough: []Bound{{0, 0}}, Body: c07Upgrade, MinHB: 1})
 }
 
